@@ -226,10 +226,23 @@ impl Inp {
     }
 }
 
-#[derive(Debug, Clone, Default, PartialEq, Eq)]
+#[derive(Debug, Clone, Default)]
 pub struct InpInternPool {
     store: IndexSet<Inp>,
 }
+
+// Transitions refer to inputs by their index in the pool, so two pools are only interchangeable
+// if they hold the same inputs *in the same order*.  IndexSet's own `==` ignores the order, which
+// made `DFA == DFA` true for e.g. the nested automata of `(user)@(host)` and `(host)@(user)`; the
+// second one was then dropped by DFAInternPool whenever both happened to land in the same bucket
+// of its (randomly seeded) hash table.
+impl PartialEq for InpInternPool {
+    fn eq(&self, other: &Self) -> bool {
+        self.store.len() == other.store.len() && self.store.iter().eq(other.store.iter())
+    }
+}
+
+impl Eq for InpInternPool {}
 
 impl std::hash::Hash for InpInternPool {
     fn hash<H: std::hash::Hasher>(&self, state: &mut H) {
